@@ -31,6 +31,7 @@ CONFIGS = [
     {'kind': 'dir', 'serialized': False, 'protocol': None},
     {'kind': 'dir', 'serialized': True, 'protocol': None, 'compression': 3},
     {'kind': 'sql', 'memory': False},
+    {'kind': 'dir', 'serialized': True, 'protocol': None, 'permissions': 0o755},     # explicit permissions= option
     {'kind': 'dir', 'serialized': True, 'protocol': None, 'memmode': 'r+'},
     {'kind': 'dir', 'serialized': True, 'protocol': None, 'fast': True},
     {'kind': 'file', 'serialized': True, 'protocol': 0},
